@@ -151,6 +151,31 @@ def install():
     return ns
 
 
+async def _warmup(mpc, pid):
+    """generic earlier-session program: fills per-runtime and module-level caches (PRSS subsets and PRFs for several bounds, recombination vectors,
+    resharing) with entries for the earlier threshold.  Uses only types whose construction does not depend on the threshold."""
+    secint = mpc.SecInt(32)
+    secfld = mpc.SecFld(2 ** 61 - 1)
+    m = len(mpc.parties)
+    xs = mpc.input(secint(pid + 2))
+    y = xs[0] * xs[(1) % m] + xs[m - 1]
+    b = mpc.random_bits(secint, 2)
+    z = (xs[0] < xs[m - 1]) + b[0] * b[1]
+    for T in (mpc.SecInt(8), mpc.SecInt(16), mpc.SecFxp(16, 8), mpc.SecFld(101), mpc.SecFld(257)):   # the bounds / fields most programs of the checks use
+        u = mpc.input(T(pid + 1), senders=0)
+        v = u * u
+        if not issubclass(T, mpc.SecureFiniteField):
+            v = v + (u < 3)
+        mpc.random_bits(T, 1)
+        await mpc.output(v)
+    fs = mpc.input(secfld(pid + 3))
+    w = fs[0] * fs[m - 1]
+    out = await mpc.output([y, z])
+    out2 = await mpc.output(w)
+    assert out[0] == 2 * (3 if m > 1 else 2) + (m + 1), out
+    assert int(out2) == 3 * (m + 2), out2
+
+
 def clear_type_caches():
     st = NS.sectypes
     for name in ('_SecFld', '_SecInt', '_SecFxp', '_SecFlt'):
@@ -353,11 +378,36 @@ class World:
 
     def __init__(self, m, t, no_prss=False, seed=0, policy='uniform', sec_param=30, no_barrier=False,
                  crash_at=None, crash_mode='eof', refuse_prob=0.2, base_port=11000, clear_caches=True,
-                 record_sched=False):
+                 record_sched=False, history=None, on_observed=None):
+        """history: how the runtimes arrive at threshold t (None: constructed with it, as with -T t).
+             ('assign', t0): constructed with threshold t0, then `mpc.threshold = t` before start() (as demos/parallelsort.py does);
+             ('session', t0): a complete earlier session (start, warm-up program, shutdown) at threshold t0 on the same Runtime objects,
+                              then `mpc.threshold = t` and the session that is observed;
+             'auto': one of the above (or none) chosen pseudo-randomly from the seed.
+           The monitors only ever see the observed session."""
         global _W
         ns = install()
         self.ns = ns
         self.m, self.t, self.no_prss = m, t, no_prss
+        if history == 'auto':
+            hr = random.Random(f'history/{seed}/{m}/{t}')
+            others = [x for x in range(0, (m + 1) // 2) if 2 * x < m and x != t]
+            r = hr.random()
+            if crash_at is not None or m == 1:
+                history = None
+            elif r < 0.15 and others:
+                history = ('assign', hr.choice(others))
+            elif r < 0.35:
+                history = ('session', hr.choice(others + [x for x in others if x > t] * 3 + [t]))       # an earlier session at a higher threshold is the interesting direction
+            else:
+                history = None
+        self.history = history
+        self.on_observed = on_observed       # callable run when the observed session begins (monitors of a check forget the earlier session)
+        self.t_main = t
+        if history is not None:
+            self.t = history[1]                   # until the observed session begins
+        self._arrived = 0
+        self.conn_epoch = 0
         self.now = 0.0
         self.seed = seed
         self.rng = random.Random(f'sched/{seed}/{policy}')
@@ -395,7 +445,7 @@ class World:
         parser = ns.mpyc._get_arg_parser()
         for i in range(m):
             options, _ = parser.parse_known_args([])
-            options.threshold = t
+            options.threshold = self.t
             options.no_prss = no_prss
             options.no_async = False
             options.no_barrier = no_barrier
@@ -519,6 +569,18 @@ class World:
 
         async def main(pid):
             mpc = ns.proxy
+            h = self.history
+            if h is not None and wrap:
+                if h[0] == 'session':
+                    await mpc.start()
+                    await _warmup(mpc, pid)
+                    await mpc.shutdown()
+                self._arrived += 1
+                if self._arrived == self.m:
+                    self._begin_observed_session()       # the last party to get here resets the monitors
+                while self._arrived < self.m:
+                    await asyncio.sleep(0)               # harness-level rendezvous between the sessions
+                mpc.threshold = self.t_main
             if wrap:
                 await mpc.start()
                 r = await program(mpc, pid)
@@ -528,6 +590,24 @@ class World:
         self.tasks = [self.ctx[i].run(lambda i=i: self.loops[i].create_task(main(i))) for i in range(self.m)]
         self._drive(max_steps, stuck_after)
         return self
+
+    def _begin_observed_session(self):
+        """forget what the monitors recorded during the earlier session; from here on the world looks like a fresh one at threshold t_main"""
+        self.t = self.t_main
+        self.conns = {}
+        self.conn_epoch += 1
+        self.sent = collections.Counter()
+        self.close_events = []
+        self.stop_events = []
+        self.recv_log = []
+        self.recv_payload = {}
+        self.write_log = collections.defaultdict(list)
+        self.deferred_bumps = set()
+        self.tasks_created = collections.Counter()
+        if self.on_observed is not None:
+            self.on_observed()
+        for L in self.loops:
+            L.errors = [e for e in L.errors]           # errors of the earlier session stay visible (they are failures of the history as a whole)
 
     def _finished(self):
         return all(tk.done() or self.loops[i].stopped for i, tk in enumerate(self.tasks))
@@ -549,11 +629,11 @@ class World:
                 else:
                     self.status = 'STEP-LIMIT'
                     return
-            if conns_to is None or len(self.conns) != conns_to[0]:
+            if conns_to is None or (len(self.conns), self.conn_epoch) != conns_to[0]:
                 by = collections.defaultdict(list)
                 for c in self.conns.values():
                     by[c.dst].append(c)
-                conns_to = (len(self.conns), by)
+                conns_to = ((len(self.conns), self.conn_epoch), by)
             cand = []
             inflight_any = False
             for L in self.loops:
@@ -715,6 +795,9 @@ class World:
                 got = self.recv_payload.get((j, i, pc))
                 if got is not None and got and bytes(got[0]) != payload:
                     probs.append(f'payload handed over differs from bytes sent on {i}->{j} label {pc}')
+                elif got is not None and not got and not c.buf and i not in self.crashed and j not in self.crashed and not self.loops[j].stopped:
+                    # a receive for this label was posted at j, the complete message has been delivered to j's protocol object (nothing in flight), yet it was never handed over
+                    probs.append(f'message delivered but never handed to its receive on {i}->{j} label {pc}')
             if c.proto is not None and getattr(c.proto, 'buffers', None):
                 probs.append(f'{len(c.proto.buffers)} leftover buffer entries at {j} for peer {i}')
             if c.proto is not None and len(getattr(c.proto, 'bytes', b'')):
